@@ -30,7 +30,12 @@ def seq_cases(rng, K, hdrs, kind):
         rest = stream[pos:]
         # give the reader everything that is still to come, fragmented; only this header's bytes must be consumed
         frags = partition(rng, rest[:len(w) + rng.randint(0, 3)], max_chunk=3, p_empty=0)
-        ops.append("rs:" + ",".join("D" + f.hex() for f in frags if f))
+        evs = []
+        for f in frags:
+            if not f: continue
+            if rng.random() < 0.2: evs.append("I")      # interruptions between fragments change nothing
+            evs.append("D" + f.hex())
+        ops.append("rs:" + ",".join(evs))
         exp.append("ok:%d:%d:u%d" % (s, o, len(w)))
         pos += len(w)
     cs.append(Case("hdr w c %s %s pr" % (K.hex(), " ".join(ops)), kind + "-client-read", None, None))
